@@ -36,7 +36,7 @@ ASSUMPTIONS = [
     "get_paths / Part.segments / pretty_segments / add_segments are documented to store Segment objects on the part",
 ]
 COMPONENTS = {"real": ["partitura.score: add_segments, get_paths, Path, ScoreVariant.create_variant_part, unfold_part_maximal/minimal, iter_unfolded_parts, new_part_from_path", "utils.generic.ReplaceRefMixin", "utils.music.update_note_ids_after_unfolding"], "stub": ["none (no I/O in this world)"]}
-PROBES = ("unfold_by_alignment", "score_vs_part", "same_call_twice_with_other_between", "tie_across_segment_boundary", "slur_across_segment_boundary", "volta", "volta3", "navigation", "two_repeats", "no_structure", "variant_count_checked", "partial_generator")
+PROBES = ("unfold_by_alignment", "unfold_of_an_unfolded_part", "repeat_moved_between_unfoldings", "score_vs_part", "same_call_twice_with_other_between", "tie_across_segment_boundary", "slur_across_segment_boundary", "volta", "volta3", "navigation", "two_repeats", "no_structure", "variant_count_checked", "partial_generator")
 
 
 # ----------------------------------------------------------------------------
@@ -69,6 +69,10 @@ def generate(seed, tier, cfg):
             ops.append({"k": "iter", "take": o.choice((1, 99, 99, 99)), "update_ids": o.random() < 0.5})
         elif x < 0.68:
             ops.append({"k": "align"})
+        elif x < 0.73:
+            ops.append({"k": "reunfold"})
+        elif x < 0.78 and ops:
+            ops.append({"k": "move_repeat"})
         elif x < 0.8:
             ops.append({"k": "paths", "flags": o.choice(((False, False, True), (False, True, True), (True, False, True), (False, True, False), (False, False, False)))})
         elif x < 0.9:
@@ -77,6 +81,9 @@ def generate(seed, tier, cfg):
             ops.append({"k": "pretty_segments"})
         else:
             ops.append({"k": "force_new"})
+    if p.get("repeat_shape") in ("simple", "simple2") and k.random() < 0.5:
+        # a history: unfold, move a repeat start one measure earlier (in place), rebuild the segments, unfold again
+        ops += [{"k": "max", "update_ids": True, "ignore_leaps": True}, {"k": "move_repeat"}, {"k": "max", "update_ids": True, "ignore_leaps": True}, {"k": "iter", "take": 99, "update_ids": False}]
     return {"workload": asc, "ops": ops, "knobs": {"via_score": k.random() < 0.3}}
 
 
@@ -307,7 +314,7 @@ def execute(case, keep_log=False):
     from checks.c20 import diff_shape
 
     res = Result(keep_log)
-    asc = case["workload"]
+    asc = copy.deepcopy(case["workload"])  # move_repeat edits the abstract score: execute must stay a pure function of the case
     ap = asc["parts"][0]
     shape = ap.get("repeat_shape", "none")
     n, reps, ends, nav = structure(ap)
@@ -343,7 +350,9 @@ def execute(case, keep_log=False):
         if s1 != snap[0]:
             shp = diff_shape(snap[0], s1)
             seg_only = all(x in ("TimePoint.ending_objects[Segment]", "TimePoint.starting_objects[Segment]", "new:Segment", "gone:Segment") for x in shp.split("|"))
-            if not (opname in ("paths", "segments", "pretty_segments", "force_new") and seg_only):
+            if opname == "move_repeat":
+                pass
+            elif not (opname in ("paths", "segments", "pretty_segments", "force_new") and seg_only):
                 res.violation("U5-original-modified", opname, "the original part changed: %s" % "; ".join(FP.diff_snapshots(snap[0], s1)), site=shp, target="score" if case["knobs"]["via_score"] and opname in ("max", "min") else "part")
             snap[0] = s1
             # objects now part of the original
@@ -353,8 +362,12 @@ def execute(case, keep_log=False):
                         for o in oo:
                             orig_objs.add(id(o))
 
+    def fatal():
+        # the direct manifestations of the two known findings do not end a history: later operations still run
+        return any(not ((v["oracle"] == "U5-original-modified" and v.get("site") == SEGMENT_SHAPE) or (v["oracle"] == "U1-length" and v.get("site") == "length:dangling-end")) for v in res.violations)
+
     for op in case["ops"]:
-        if res.violations:
+        if fatal():
             break
         k = op["k"]
         key = repr(sorted(op.items()))
@@ -391,14 +404,14 @@ def execute(case, keep_log=False):
                     sq = check_part(res, ap, part, rp, "iter", "any", op["update_ids"], orig_objs)
                     seqs.append(sq)
                     nonmutation("iter")
-                    if res.violations or cnt >= op["take"]:
+                    if fatal() or cnt >= op["take"]:
                         break
                 if op["take"] < 99:
                     res.probe("partial_generator")
                     g.close()
                 else:
                     mx, mn, nvar = expected_sequences(ap)
-                    if nvar is not None and not res.violations:
+                    if nvar is not None and not fatal():
                         res.probe("variant_count_checked")
                         if cnt != nvar:
                             res.violation("U4-variants", "iter", "%d variants for %d independent simple repeats, expected %d" % (cnt, len(reps), nvar), site="count")
@@ -417,10 +430,45 @@ def execute(case, keep_log=False):
                 res.probe("unfold_by_alignment")
                 outcome = check_part(res, ap, part, rp, "align", "any", True, orig_objs)
                 got = sorted(n.id for n in rp.notes_tied)
-                if not res.violations and got != sorted(ids):
+                if not fatal() and got != sorted(ids):
                     res.violation("U4-policy", "align", "unfold_part_alignment for an alignment that lists the notes of the maximal unfolding returns a part with %d sounding notes, the maximal unfolding has %d (measures visited: %s)" % (len(got), len(ids), outcome), site="alignment-coverage")
                 if alignment != al0 and any("-1" in (a.get("score_id") or "") for a in al0):
                     res.violation("U5-original-modified", "align", "unfold_part_alignment rewrote an alignment whose ids already carry visit numbers", site="alignment", target="alignment")
+            elif k == "reunfold":
+                # the result of an unfolding is a part like any other: put a repeat around it and unfold again
+                fresh = build.build_score(asc, with_pages=True).parts[0]
+                r1 = S.unfold_part_maximal(fresh, update_ids=True)
+                ids1 = sorted(n.id for n in r1.notes)
+                if r1.first_point is not None and r1.last_point is not None and r1.first_point.t < r1.last_point.t:
+                    r1.add(S.Repeat(), r1.first_point.t, r1.last_point.t)
+                    r2 = S.unfold_part_maximal(r1, update_ids=True)
+                    res.probe("unfold_of_an_unfolded_part")
+                    ids2 = sorted(n.id for n in r2.notes)
+                    want2 = sorted(i + "-1" for i in ids1) + sorted(i + "-2" for i in ids1)
+                    if sorted(ids2) != sorted(want2):
+                        dup = sorted(set(i for i in ids2 if ids2.count(i) > 1))[:4]
+                        res.violation("U1-copies", "reunfold", "a repeat around an unfolded part (ids %s...) unfolds to notes with ids %s... (%d notes, %d distinct), expected every id once with -1 and once with -2 (repeated ids: %s)" % (ids1[:3], ids2[:4], len(ids2), len(set(ids2)), dup), site="ids-second-generation")
+                    outcome = len(ids2)
+            elif k == "move_repeat":
+                # documented in-place edit between two unfoldings: a repeat is made to start one measure earlier,
+                # the segments are rebuilt on request, and everything afterwards follows the new structure
+                reps_ = sorted(part.iter_all(S.Repeat), key=lambda r: r.start.t)
+                bounds = [m["s"] for m in ap["measures"]]
+                cand = [(r, bounds.index(r.start.t)) for r in reps_ if r.start.t in bounds and bounds.index(r.start.t) > 0]
+                cand = [(r, i) for r, i in cand if not any(o is not r and o.start.t < r.start.t <= o.end.t and bounds[i - 1] < o.end.t and o.start.t <= bounds[i - 1] for o in reps_)]
+                if cand and ap.get("repeat_shape") in ("simple", "simple2") and not any(o.end.t == cand[0][0].start.t for o in reps_):
+                    r, i = cand[0]
+                    for x in ap["repeats"]:
+                        if x["s"] == r.start.t and x["e"] == r.end.t:
+                            x["s"] = bounds[i - 1]
+                            break
+                    part.remove(r, "start")
+                    part.add(r, start=bounds[i - 1])
+                    S.add_segments(part, force_new=True)
+                    res.probe("repeat_moved_between_unfoldings")
+                    results.clear()
+                    snap[0] = snapper.snapshot(score)
+                    outcome = i - 1
             elif k == "paths":
                 a, b, c = op["flags"]
                 ps = S.get_paths(part, no_repeats=a, all_repeats=b, ignore_leap_info=c)
